@@ -16,10 +16,10 @@
 
 using pbt::Ctx; using pbt::Bytes;
 
-struct Req { size_t chunk; bool stored; };
+struct Req { size_t chunk; bool stored; int shorter = 0; };    // shorter: 0 full-size buffer; 1 one byte; 2 half; 3 size-1 (a caller that only wants the beginning of a chunk)
 
 static std::string req_str(const std::vector<Req> &rs) {
-    std::string s; for (auto &r : rs) s += (r.stored ? "S" : "D") + std::to_string(r.chunk) + " "; return s;
+    std::string s; for (auto &r : rs) s += (r.stored ? "S" : "D") + std::to_string(r.chunk) + (r.shorter ? "(short" + std::to_string(r.shorter) + ")" : "") + " "; return s;
 }
 
 // Run one sequence on a fresh context; returns "" or a failure description (sig in *sig).
@@ -34,6 +34,18 @@ static std::string run_seq(const gen::ZFile &z, const std::vector<Req> &seq, siz
         const Req &rq = seq[k];
         zckChunk *ch = zck_get_chunk(ctx, rq.chunk);
         if (!ch) { out = "zck_get_chunk(" + std::to_string(rq.chunk) + ") returned NULL"; *sig = "get-chunk"; break; }
+        if (rq.shorter) {
+            // a request with a buffer smaller than the chunk: whatever it returns must fit the buffer and be the beginning of the
+            // chunk's (stored) data; its real purpose here is to be part of the history of the requests that follow
+            size_t full = rq.stored ? z.clen(rq.chunk) : z.plain[rq.chunk].size(); if (full < 2) continue;
+            size_t cap = rq.shorter == 1 ? 1 : rq.shorter == 2 ? full / 2 : full - 1; std::vector<char> b(cap + 1, 0x5a);
+            ssize_t r = rq.stored ? zck_get_chunk_comp_data(ch, b.data(), cap) : zck_get_chunk_data(ch, b.data(), cap);
+            if (b[cap] != 0x5a || r > (ssize_t)cap) { out = "short request " + std::to_string(k) + " wrote past dst_size"; *sig = "overrun"; break; }
+            const uint8_t *src = rq.stored ? z.file.data() + z.off(rq.chunk) : z.plain[rq.chunk].data();
+            if (r > 0 && memcmp(b.data(), src, r) != 0) { out = "short request " + std::to_string(k) + " (buffer " + std::to_string(cap) + " of " + std::to_string(full) + ") returned bytes that are not the beginning of chunk " + std::to_string(rq.chunk); *sig = "short-bytes"; break; }
+            if (r < 0) (void)!zck_clear_error(ctx);
+            continue;
+        }
         if (rq.stored) {
             size_t want = z.clen(rq.chunk); std::vector<char> b(want + 1, 0x5a);
             ssize_t r = zck_get_chunk_comp_data(ch, b.data(), want);
@@ -86,6 +98,7 @@ static void prop(Ctx &c) {
         Req r; uint64_t k = c.draw(5);
         r.chunk = k == 0 ? n - 1 : k == 1 ? 0 : k == 2 && !seq.empty() ? seq.back().chunk : c.pick(n);
         r.stored = c.rarely(4);
+        if (c.gver >= 2 && c.rarely(5)) { r.shorter = 1 + (int)c.draw(2); c.label("short-buffer-request"); }
         if (last_seen) after_last = true; if (seen.count(r.chunk)) repeat = true;
         seen.insert(r.chunk); if (r.chunk == n - 1 && !r.stored) last_seen = true;
         seq.push_back(r);
